@@ -274,7 +274,7 @@ def c02(tier, repo=None):
                 ("d3b", consts("dag", 3, 3, 2, 0), {}),
                 ("w3", consts("wf", 3, 4, 1, 0, multi=True), {}),
                 ("d2o", consts("dag", 2, 3, 1, 0, orphans=True), {})]
-        models = ["MC_EinoRun_dag3.cfg"]
+        models = ["MC_EinoRun_dag3.cfg", "MC_EinoRun_wf3q.cfg"]
         limit = 40000
     else:
         fams = [("d3", consts("dag", 3, 5, 2, 0, multi=True), {"timeout": 1800}),
@@ -282,7 +282,7 @@ def c02(tier, repo=None):
                 ("d4s", consts("dag", 4, 7, 2, 0, multi=True, ends=3), {"simulate": "num=50000", "depth": 14, "seed": vlib.SEED, "workers": 1}),
                 ("w4s", consts("wf", 4, 7, 2, 0, multi=True, ends=3), {"simulate": "num=50000", "depth": 14, "seed": vlib.SEED, "workers": 1}),
                 ("d3o", consts("dag", 3, 4, 1, 0, orphans=True), {})]
-        models = ["MC_EinoRun_dag3.cfg"]
+        models = ["MC_EinoRun_dag3.cfg", "MC_EinoRun_wf3.cfg"]
         limit = 250000
     return run_engine_check("C02", tier, model_cfgs=models, families=fams, decorate_kw={}, nontrivial=nontrivial, classify=classify,
                             nest_frac=0.05, limit=limit, repo=repo,
